@@ -119,7 +119,9 @@ class Hostile(optuna.samplers.RandomSampler):
         self.hook, self.at = hook, at
 
     def _maybe(self, hook: str, trial: Any) -> None:
-        if self.hook == hook and trial.number == self.at:
+        if self.hook is not None and self.hook.split("!")[0] == hook and trial.number == self.at:
+            if self.hook.endswith("!kbd"):
+                raise KeyboardInterrupt()  # Ctrl-C landing inside the sampler
             raise RuntimeError(f"hostile {hook}")
 
     def before_trial(self, study, trial):
@@ -127,7 +129,7 @@ class Hostile(optuna.samplers.RandomSampler):
 
     def infer_relative_search_space(self, study, trial):
         self._maybe("infer_relative_search_space", trial)
-        return {"x": optuna.distributions.FloatDistribution(0, 1)} if self.hook == "sample_relative" else {}
+        return {"x": optuna.distributions.FloatDistribution(0, 1)} if (self.hook or "").startswith("sample_relative") else {}
 
     def sample_relative(self, study, trial, search_space):
         self._maybe("sample_relative", trial)
@@ -151,7 +153,8 @@ class HostilePruner(optuna.pruners.BasePruner):
         return False
 
 
-HOOKS = [None, "before_trial", "infer_relative_search_space", "sample_relative", "sample_independent", "after_trial", "prune"]
+HOOKS = [None, "before_trial", "infer_relative_search_space", "sample_relative", "sample_independent", "after_trial", "prune",
+         "before_trial!kbd", "infer_relative_search_space!kbd", "sample_relative!kbd", "sample_independent!kbd", "after_trial!kbd"]
 
 
 def run_program(config: str, prog: tuple, n_obj: int, catch_name: str, cb_name: str, hook: str | None,
